@@ -197,6 +197,11 @@ func (e *Eng) Render(ctx context.Context, name string, data interface{}) (res Re
 	}
 	var b bytes.Buffer
 	io.Copy(&b, rd)
+	// a reader may be asked again after its end (bufio, json.Decoder, a second io.ReadAll do): it answers 0, EOF - and that is all it does
+	var again [8]byte
+	if n, err := rd.Read(again[:]); n != 0 || err != io.EOF {
+		return Result{Class: "error", Msg: fmt.Sprintf("read after the end of the page returned %d, %v", n, err)}
+	}
 	return Result{Class: "ok", Out: b.String()}
 }
 
